@@ -163,11 +163,14 @@ def run(ck):
                     break
     # ---- fast-converging fits: noise-free linear targets, 4-5 rounds, full matrices — consecutive iterates differ by 1e-3 or less; every stored
     #      (and every per-round) matrix must still come with ITS OWN root, and stay symmetric / PSD / normalised
-    for i in range(ck.n(4, 12)):
+    for i in range(ck.n(8, 16)):
         kern, extra = [('l2', {}), ('l1', {}), ('lpq', dict(norm_p=1.5)), ('sum_power_laplace', {})][i % 4]
         n, d, nout = 80, 3, [1, 2][i % 2]
         # every other pair: targets recorded in small units (1e-4): tiny gradients, the un-normalised accumulator is of order 1e-8
-        yscale = [1.0, 1e-4][(i // 2) % 2]
+        # ... and in very small units (1e-10 in float64, 1e-5 in float32): the un-normalised accumulator is below the machine epsilon of its dtype, its largest
+        # entry is still what it is divided by (the normalised matrix does not depend on the units of the targets)
+        yscale = [1.0, 1e-4, 1e-10, 1e-5][(i // 2) % 4]
+        Tc = (lambda a: torch.tensor(a, dtype=torch.float32)) if yscale == 1e-5 else T
         X = rng.standard_normal((n, d)); W = rng.standard_normal((d, nout)); Y = X @ W * yscale
         iters = [4, 5][i % 2]
         xr.seed_all(1490 + i + ck.seed)
@@ -175,7 +178,7 @@ def run(ck):
         desc = dict(kind='converging', i=i, kernel=kern, n=n, d=d, nout=nout, iters=iters, target_scale=yscale, seed=ck.seed)
         try:
             with xr.quiet():
-                m.fit((T(X), T(Y)), (T(X[:20]), T(Y[:20])), iters=iters, reg=1e-3, verbose=False, return_best_params=False)
+                m.fit((Tc(X), Tc(Y)), (Tc(X[:20]), Tc(Y[:20])), iters=iters, reg=1e-3, verbose=False, return_best_params=False)
         except Exception as e:
             ck.violation(f'fit raised {e!r} on {desc}', dict(desc), key='fit-raise'); continue
         ck.case(desc, nontrivial=True); ck.count(f'converging fit (linear target, scale {yscale})')
